@@ -128,6 +128,36 @@ def _run_cli(cmd, smt2, timeout_s):
     return r, time.time() - t0
 
 
+def _cvc5_model(txt, timeout_ms):
+    q = txt.replace('(check-sat)', '(check-sat)\n(get-model)')
+    with tempfile.NamedTemporaryFile('w', suffix='.smt2', delete=False, dir=os.environ.get('VERIF_TMP')) as f:
+        f.write(q)
+        path = f.name
+    try:
+        p = subprocess.run([CVC5, '--strings-exp', '--produce-models', '--tlimit=%d' % timeout_ms, path],
+                           capture_output=True, text=True, timeout=timeout_ms / 1000.0 + 5)
+        out = p.stdout
+    except subprocess.TimeoutExpired:
+        return None, None
+    finally:
+        os.unlink(path)
+    if not out.startswith('sat'):
+        return None, out[:2000]
+    model = {}
+    for m in re.finditer(r'\(define-fun (\|[^|]+\||\S+) \(\) (\S+) (.*)\)\s*$', out, re.M):
+        name, sort, val = m.group(1).strip('|'), m.group(2), m.group(3).strip()
+        if sort == 'Int':
+            mm = re.fullmatch(r'\(- (\d+)\)|(\d+)', val)
+            if mm:
+                model[name] = -int(mm.group(1)) if mm.group(1) else int(mm.group(2))
+        elif sort == 'Bool':
+            model[name] = (val == 'true')
+        elif sort == 'String' and val.startswith('"'):
+            sv = val[1:-1].replace('""', '"')
+            model[name] = re.sub(r'\\u\{([0-9a-fA-F]+)\}', lambda mm: chr(int(mm.group(1), 16)), sv)
+    return model, out[:6000]
+
+
 def discharge_one(job):
     """job: dict(id, smt2, expect_sat, timeout_ms, confirm) -> result dict"""
     smt2 = job['smt2']
@@ -150,14 +180,15 @@ def discharge_one(job):
         if r2 == 'unsat':
             res.update(status='unsat', solver='cvc5-1.0.3')
         elif r2 == 'sat':
-            # cvc5 says sat but gave no model in this mode: treat as undecided-with-hint
-            res.update(status='sat-nomodel', solver='cvc5-1.0.3')
+            # cvc5 decided sat: fetch a model in a second run (strings need --strings-fmf to terminate)
+            model, raw = _cvc5_model(txt, timeout_ms)
+            res.update(status='sat', solver='cvc5-1.0.3', model=model, raw_model=raw)
         else:
             r3, dt3 = _run_cli([Z3_OLD, '-T:%d' % max(1, int(timeout_ms / 1000)), '-smt2'], smt2, timeout_ms / 1000.0)
             res['tried'].append(('z3-4.8.12', r3, round(dt3, 3)))
             res['time_s'] += dt3
             if r3 in ('sat', 'unsat'):
-                res.update(status=r3 if r3 == 'unsat' else 'sat-nomodel', solver='z3-4.8.12')
+                res.update(status=r3, solver='z3-4.8.12')
     if job.get('confirm') and res['status'] == 'unsat':
         # thorough: second opinion
         other = None
